@@ -372,4 +372,19 @@ theorem parse_dangling_product_any (c : Cst) (hwf : c.WF = true) (hc : Conv c = 
       have h2 := this.parse
       simpa only [Cst.flatten, List.append_assoc, List.cons_append] using h2
 
+
+/-- A dangling binary operator after any expression. -/
+theorem parse_dangling_any (c : Cst) (hwf : c.WF = true) (hc : Conv c = true)
+    (hs : c.bigInt = false) (w : List Char) (hw : w.all isBlank = true) (op : Char)
+    (hop : op = '+' ∨ op = '-' ∨ op = '*' ∨ op = '/' ∨ op = '^') (tail : List Char)
+    (ht : cannotStart tail = true) :
+    parse (c.flatten ++ (w ++ op :: tail)) = .err (.invalidArgument tail) := by
+  rcases hop with h | h | h | h | h
+  · exact parse_dangling_sum c hwf hc hs w hw op (.inl h) tail ht
+  · exact parse_dangling_sum c hwf hc hs w hw op (.inr h) tail ht
+  · exact parse_dangling_product_any c hwf hc hs w hw op (.inl h) tail ht
+  · exact parse_dangling_product_any c hwf hc hs w hw op (.inr h) tail ht
+  · subst h
+    exact parse_dangling_power_any c hwf hc hs w hw tail _ (cannotStart_levels ht).1
+
 end Q1t.Proofs.Expr
